@@ -1,0 +1,65 @@
+//go:build verif
+
+package doc
+
+// This file is only built with the "verif" tag. It exposes the unexported
+// highlighting code of doc:find (match.go) to an out-of-tree verification
+// harness; it adds no behaviour.
+
+import (
+	"src.elv.sh/pkg/diag"
+	"src.elv.sh/pkg/md"
+)
+
+// VerifSortAndMergeMatches calls sortAndMergeMatches on a private copy of rs
+// ([2]int{From, To}).
+func VerifSortAndMergeMatches(rs [][2]int) [][2]int {
+	in := make([]diag.Ranging, len(rs))
+	for i, r := range rs {
+		in[i] = diag.Ranging{From: r[0], To: r[1]}
+	}
+	out := sortAndMergeMatches(in)
+	res := make([][2]int, len(out))
+	for i, r := range out {
+		res[i] = [2]int{r.From, r.To}
+	}
+	return res
+}
+
+// VerifShow calls matchedBlock.Show.
+func VerifShow(text string, code bool, matches [][2]int) string {
+	ms := make([]diag.Ranging, len(matches))
+	for i, r := range matches {
+		ms[i] = diag.Ranging{From: r[0], To: r[1]}
+	}
+	return matchedBlock{md.TextBlock{Text: text, Code: code}, ms}.Show()
+}
+
+// VerifMatch calls match and returns the matched blocks with their merged
+// matches.
+func VerifMatch(markdown string, qs []string) (blocks []md.TextBlock, matches [][][2]int, ok bool) {
+	bs, ok := match(markdown, qs)
+	for _, b := range bs {
+		blocks = append(blocks, b.block)
+		ms := make([][2]int, len(b.matches))
+		for i, r := range b.matches {
+			ms[i] = [2]int{r.From, r.To}
+		}
+		matches = append(matches, ms)
+	}
+	return blocks, matches, ok
+}
+
+// VerifMatchShow is the body of doc:find's findIn for one documentation
+// text: match, then Show of every matched block.
+func VerifMatchShow(markdown string, qs []string) ([]string, bool) {
+	bs, ok := match(markdown, qs)
+	if !ok {
+		return nil, false
+	}
+	out := make([]string, len(bs))
+	for i, b := range bs {
+		out[i] = b.Show()
+	}
+	return out, true
+}
